@@ -473,7 +473,7 @@ def inherit_case(rnd, cid, auto=None, rich=False):
         if rnd.random() < 0.5:
             d["x"] = J.vint(7)
         for lvl in range(1, depth):
-            d["parent_" + str(lvl)] = J.vstr(names[lvl - 1])
+            d["parent_" + str(lvl)] = J.vtplobj(names[lvl - 1]) if (rich and rnd.random() < 0.5) else J.vstr(names[lvl - 1])
         datas.append(d)
     return J.make_case(cid, tpls, names[-1], datas)
 
@@ -526,10 +526,20 @@ def _target_template(rnd, name, others, depth=0):
     return body
 
 
-def _use_site(rnd, tnames):
+def _use_site(rnd, tnames, tplobjs=False):
     """One include/import statement (plus uses of what it binds)."""
     t = rnd.choice(tnames)
     r = rnd.random()
+    if tplobjs and rnd.random() < 0.3:
+        # a loaded Template object passed in as data: used as it is, also inside a list of candidates
+        e = rnd.choice([N("tobj"), J.List([C("nope"), N("tobj")]), J.List([N("tobj"), C(t)]), J.Cond(N("c"), N("tobj"), C(t))])
+        k = rnd.random()
+        if k < 0.5:
+            return [J.Include(e, with_context=rnd.random() < 0.6, ignore_missing=rnd.random() < 0.3)]
+        if k < 0.8:
+            return [J.Import(N("tobj"), "mod", with_context=rnd.random() < 0.4), J.Out(J.Getattr(N("mod"), rnd.choice(["v", "x", "zz"]))),
+                    J.Out(J.Call(J.Getattr(N("mod"), rnd.choice(["m", "m2"]))))]
+        return [J.FromImport(N("tobj"), [("m", "m"), ("v", "al_v")], with_context=rnd.random() < 0.4), J.Out(N("al_v")), J.Out(J.Call(N("m")))]
     if r < 0.35:
         e = rnd.choice([C(t), C(t), J.List([C("nope"), C(t)]), N("tplname"), J.List([C("nope1"), C("nope2")]),
                         C("nope"), J.Cond(N("c"), C(t), N("tplname")), J.Cond(N("c"), N("tplname"), C(t))])
@@ -557,7 +567,7 @@ def _use_site(rnd, tnames):
     return st
 
 
-def module_case(rnd, cid, auto=None):
+def module_case(rnd, cid, auto=None, tplobjs=False):
     auto = rnd.random() < 0.4 if auto is None else auto
     tnames = ["inc", "lib", "aux"][: rnd.randint(1, 3)]
     tpls = {}
@@ -567,7 +577,7 @@ def module_case(rnd, cid, auto=None):
     if rnd.random() < 0.35:
         body.append(J.Set("loc", C(1)))
     for _ in range(rnd.randint(1, 3)):
-        site = _use_site(rnd, tnames)
+        site = _use_site(rnd, tnames, tplobjs)
         r = rnd.random()
         if r < 0.3:
             body.append(J.For(J.TName("i"), J.List([C(1), C(2)]), site + [J.Text(";")]))
@@ -599,6 +609,8 @@ def module_case(rnd, cid, auto=None):
     datas = []
     for _ in range(3):
         d = {"c": J.vbool(rnd.random() < 0.7), "tplname": J.vstr(rnd.choice(tnames + ["nope"]))}
+        if tplobjs:
+            d["tobj"] = J.vtplobj(rnd.choice(tnames))
         if rnd.random() < 0.7:
             d["x"] = rnd.choice([J.vint(7), J.vstr(META)])
         datas.append(d)
@@ -617,9 +629,9 @@ def module_case(rnd, cid, auto=None):
     return J.make_case(cid, tpls, "main", datas, globals_={"g": J.vstr("G&")}, tglobals=tg)
 
 
-def module_cases(seed, n, start_id=1, auto=None):
+def module_cases(seed, n, start_id=1, auto=None, tplobjs=False):
     rnd = random.Random(seed)
-    return [module_case(rnd, start_id + i, auto) for i in range(n)]
+    return [module_case(rnd, start_id + i, auto, tplobjs) for i in range(n)]
 
 
 # ---------------------------------------------------------------------------
